@@ -237,3 +237,63 @@ Proof.
   split; [intro H; apply C03_clean_path_facts in H as (_ & H & _); vm_compute in H; discriminate|].
   vm_compute. repeat split; reflexivity.
 Qed.
+
+(* ---- tamper detection by a MATCH / DISALLOW rule pair (proofs/RulesTamper.v) ----
+   on the specification: an artifact that stays queued because no rule can consume it, and that a terminal
+   DISALLOW matches, rejects; a MATCH rule consumes only against an EQUAL recorded artifact.  Carried to the model:
+   when VerifyArtifacts accepts, a product protected by  MATCH p WITH <type> FROM step ... DISALLOW pd  was recorded
+   by that step with exactly the same hashes; if the hashes differ (or the step did not record it), VerifyArtifacts
+   returns an error. *)
+From IT Require Import proofs.RulesTamper.
+
+Theorem C03_unconsumed_disallowed_rejects : forall gm meta mats prods src rs pd f (q : pset),
+  Forall (fun r => inert gm meta mats prods src r f) rs -> q f -> gm pd f = true ->
+  ~ accepts gm meta mats prods src (rs ++ [SDisallow pd]) q.
+Proof. exact inert_disallow_rejects. Qed.
+Print Assumptions C03_unconsumed_disallowed_rejects.
+
+Theorem C03_protected_product_matches : forall gm items meta name em ep li pre p ty step mid pd f h,
+  wf_meta meta -> wf_items items ->
+  verify_artifacts gm items meta = Ok tt ->
+  In (name, em, ep) items -> alookup meta name = Some li ->
+  Forall2 rule_shape ep (pre ++ SMatch p [] ty [] step :: mid ++ [SDisallow pd]) ->
+  alookup (ln_products li) f = Some h -> gm pd f = true ->
+  Forall (fun r => inert gm meta (ln_materials li) (ln_products li) (ln_products li) r f) pre ->
+  Forall (fun r => inert gm meta (ln_materials li) (ln_products li) (ln_products li) r f) mid ->
+  exists dl hd, alookup meta step = Some dl /\ alookup (arts_of ty dl) f = Some hd /\ hash_equal h hd /\ gm p f = true.
+Proof. exact model_protected_product_matches. Qed.
+Print Assumptions C03_protected_product_matches.
+
+Theorem C03_protected_material_matches : forall gm items meta name em ep li pre p ty step mid pd f h,
+  wf_meta meta -> wf_items items ->
+  verify_artifacts gm items meta = Ok tt ->
+  In (name, em, ep) items -> alookup meta name = Some li ->
+  Forall2 rule_shape em (pre ++ SMatch p [] ty [] step :: mid ++ [SDisallow pd]) ->
+  alookup (ln_materials li) f = Some h -> gm pd f = true ->
+  Forall (fun r => inert gm meta (ln_materials li) (ln_products li) (ln_materials li) r f) pre ->
+  Forall (fun r => inert gm meta (ln_materials li) (ln_products li) (ln_materials li) r f) mid ->
+  exists dl hd, alookup meta step = Some dl /\ alookup (arts_of ty dl) f = Some hd /\ hash_equal h hd /\ gm p f = true.
+Proof. exact model_protected_material_matches. Qed.
+Print Assumptions C03_protected_material_matches.
+
+Theorem C03_tampered_product_rejected : forall gm items meta name em ep li pre p ty step mid pd f h,
+  wf_meta meta -> wf_items items ->
+  In (name, em, ep) items -> alookup meta name = Some li ->
+  Forall2 rule_shape ep (pre ++ SMatch p [] ty [] step :: mid ++ [SDisallow pd]) ->
+  alookup (ln_products li) f = Some h -> gm pd f = true ->
+  Forall (fun r => inert gm meta (ln_materials li) (ln_products li) (ln_products li) r f) pre ->
+  Forall (fun r => inert gm meta (ln_materials li) (ln_products li) (ln_products li) r f) mid ->
+  (forall dl hd, alookup meta step = Some dl -> alookup (arts_of ty dl) f = Some hd -> ~ hash_equal h hd) ->
+  exists c, verify_artifacts gm items meta = Err c.
+Proof. exact model_tampered_product_rejected. Qed.
+Print Assumptions C03_tampered_product_rejected.
+
+(* which rules are inert on f: the generic ones whose pattern does not match f, DISALLOW and REQUIRE always *)
+Theorem C03_generic_rule_inert : forall gm meta mats prods src r f,
+  match r with
+  | SAllow p | SCreate p | SDelete p | SModify p => gm p f = false
+  | SDisallow _ | SRequire _ => True
+  | SMatch _ _ _ _ _ => False
+  end -> inert gm meta mats prods src r f.
+Proof. exact generic_inert. Qed.
+Print Assumptions C03_generic_rule_inert.
